@@ -1,4 +1,492 @@
-import Rivia.Model.MemfsOps
+/-
+  C06 — file contents round-trip exactly: write truncates, append extends, read agrees.
+  Property theorems ONLY (helper lemmas live in Rivia/Lemmas/Content.lean, Lines.lean and
+  ContentCopy.lean).
+
+  The byte-vector specification is `content s k = alLookup k s.files` (`Lemmas.content`): what the
+  data map of the Memfs model stores under key `k`.  `keyOf env s p` is the key the path `p`
+  resolves to in state `s` (`absM`), `opKey` the one key a content operation may touch.
+
+  `RootOk s` (decidable, implied by `Spec.Inv`) is the only state-shape hypothesis: if the data map
+  has bytes for the root key then the root entry exists and is a file.  It is needed because `_add`
+  returns early on the root path without checking anything (witness: `C06_rootOk_needed`).
+-/
+import Rivia.Lemmas.Content
+import Rivia.Lemmas.Lines
+import Rivia.Lemmas.ContentCopy
+
 namespace Rivia.Props
-theorem C06_placeholder : True := trivial
+open Rivia Rivia.Memfs Rivia.File Rivia.Lemmas
+
+theorem C06_content_def (s : State) (k : FsPath) : content s k = alLookup k s.files := rfl
+
+theorem C06_rootOk_of_inv {s : State} (h : Spec.Inv s) : RootOk s := rootOk_of_inv h
+
+/-! ### 3. independence: a content operation touches the data of one key only -/
+
+/-- for every content-writing operation (`write_all`, `append_all`, `write_lines`, `append_lines`,
+    `append_line`, opening a write/append handle, writing to / flushing / dropping a handle) and
+    every key `q` other than the key the operation resolves to (the handle's path for handle
+    operations), the data of `q` is unchanged — whether the operation succeeds or fails, and for
+    ALL states (no invariant assumed) -/
+theorem C06_independence (env : Env) (s : State) (op : Op) (hop : isContentOp op = true)
+    (q : FsPath) (hq : opKey env s op ≠ some q) :
+    content (step env s op).2 q = content s q :=
+  step_frame env s op hop q hq
+
+/-- in particular, when the path does not even resolve, nothing changes anywhere -/
+theorem C06_independence_unresolved (env : Env) (s : State) (p : Str) (d : Bytes)
+    (h : keyOf env s p = none) (q : FsPath) :
+    content (step env s (.writeAll p d)).2 q = content s q ∧
+    content (step env s (.appendAll p d)).2 q = content s q :=
+  ⟨step_frame env s _ rfl q (by simp [opKey, h]), step_frame env s _ rfl q (by simp [opKey, h])⟩
+
+/-! ### 1. write replaces the whole content; read, read_all, read_lines agree -/
+
+theorem C06_write_then_read (env : Env) (s s' : State) (p : Str) (d : Bytes) (k : FsPath) (v : Val)
+    (hroot : RootOk s) (habs : absM env p s = (.ok k, s))
+    (hw : step env s (.writeAll p d) = (.ok v, s')) :
+    content s' k = some d ∧
+    absM env p s' = (.ok k, s') ∧
+    step env s' (.read p) = (.ok (.bytes d), s') ∧
+    step env s' (.readAll p) = (match decodeUtf8 d with
+      | some str => (.ok (.str str), s')
+      | none => (.err .ioInvalidData, s')) ∧
+    step env s' (.readLines p) = (match decodeUtf8 d with
+      | some str => (.ok (.strs (splitLines str)), s')
+      | none => (.err .ioInvalidData, s')) := by
+  obtain ⟨u, hu⟩ := step_writeAll_ok habs hw
+  have hr := writeAt_ok hroot hu
+  have habs' := absM_transport habs (writeAt_cwd hu)
+  exact ⟨hr.1, habs', step_read_of_readable habs' hr, step_readAll_of_readable habs' hr,
+    step_readLines_of_readable habs' hr⟩
+
+/-- the same under the C03 invariant -/
+theorem C06_write_then_read_inv (env : Env) (s s' : State) (p : Str) (d : Bytes) (k : FsPath) (v : Val)
+    (hinv : Spec.Inv s) (habs : absM env p s = (.ok k, s))
+    (hw : step env s (.writeAll p d) = (.ok v, s')) :
+    content s' k = some d ∧ step env s' (.read p) = (.ok (.bytes d), s') := by
+  have h := C06_write_then_read env s s' p d k v (rootOk_of_inv hinv) habs hw
+  exact ⟨h.1, h.2.2.1⟩
+
+/-! ### 2. append adds at the end and never alters the existing prefix -/
+
+/-- a successful `append_all`: on an existing entry the content becomes `old ++ d` (the old bytes
+    are a prefix of the new content); on a fresh path it becomes `d`.  No invariant needed. -/
+theorem C06_append_extends (env : Env) (s s' : State) (p : Str) (d : Bytes) (k : FsPath) (v : Val)
+    (habs : absM env p s = (.ok k, s)) (ha : step env s (.appendAll p d) = (.ok v, s')) :
+    ((alLookup k s.entries).isSome → ∃ old, content s k = some old ∧ content s' k = some (old ++ d)) ∧
+    (alLookup k s.entries = none → content s' k = some d) := by
+  obtain ⟨u, hu⟩ := step_appendAll_ok habs ha
+  exact ⟨(appendAt_ok hu).1, (appendAt_ok hu).2.1⟩
+
+/-- … stated with the old content named: existing regular file with content `old` -/
+theorem C06_append_extends_existing (env : Env) (s s' : State) (p : Str) (d old : Bytes) (k : FsPath)
+    (v : Val) (habs : absM env p s = (.ok k, s)) (hent : (alLookup k s.entries).isSome)
+    (hold : content s k = some old) (ha : step env s (.appendAll p d) = (.ok v, s')) :
+    content s' k = some (old ++ d) := by
+  obtain ⟨old', h1, h2⟩ := (C06_append_extends env s s' p d k v habs ha).1 hent
+  rw [hold] at h1; cases h1; exact h2
+
+/-- read agrees after an append -/
+theorem C06_append_then_read (env : Env) (s s' : State) (p : Str) (d : Bytes) (k : FsPath) (v : Val)
+    (hroot : RootOk s) (habs : absM env p s = (.ok k, s))
+    (ha : step env s (.appendAll p d) = (.ok v, s')) :
+    ∃ b, content s' k = some b ∧ step env s' (.read p) = (.ok (.bytes b), s') := by
+  obtain ⟨u, hu⟩ := step_appendAll_ok habs ha
+  have habs' := absM_transport habs (appendAt_cwd hu)
+  have h3 := (appendAt_ok hu).2.2 hroot
+  cases hent : alLookup k s.entries with
+  | none =>
+    have hc := (appendAt_ok hu).2.1 hent
+    exact ⟨d, hc, step_read_of_readable habs' ⟨hc, h3⟩⟩
+  | some e =>
+    obtain ⟨old, _, hc⟩ := (appendAt_ok hu).1 (by simp [hent])
+    exact ⟨old ++ d, hc, step_read_of_readable habs' ⟨hc, h3⟩⟩
+
+/-! ### 4. line helpers -/
+
+/-- (restates the definition) `write_lines` is `write_all` of the joined bytes — and nothing at all
+    when the join is empty -/
+theorem C06_write_lines_is_write_all (env : Env) (p : Str) (ls : List Str) :
+    writeLinesM env p ls = (match joinLines ls with
+      | some b => writeAllM env p b
+      | none => M.pure ()) := rfl
+
+theorem C06_append_lines_is_append_all (env : Env) (p : Str) (ls : List Str) :
+    appendLinesM env p ls = (match joinLines ls with
+      | some b => appendAllM env p b
+      | none => M.pure ()) := rfl
+
+theorem C06_append_line_is_append_all (env : Env) (p : Str) (l : Str) :
+    appendLineM env p l = if l = [] then M.pure () else appendAllM env p (utf8 l ++ [10]) := rfl
+
+/-- the bytes `write_lines`/`append_lines` hand over: the joined text plus one final newline … -/
+theorem C06_join_lines (ls : List Str) (h : Str.joinWith '\n' ls ≠ []) :
+    joinLines ls = some (utf8 (Str.joinWith '\n' ls) ++ [10]) := by
+  rw [joinLines_eq, if_neg h]; rfl
+
+/-- … which is exactly every line followed by exactly one newline (on bytes; uses
+    `utf8 (a ++ b) = utf8 a ++ utf8 b`, proved from the core `List.utf8Encode` lemmas) -/
+theorem C06_one_newline_per_line (ls : List Str) (h : ls ≠ []) :
+    utf8 (Str.joinWith '\n' ls) ++ [10] = ls.flatMap (fun l => utf8 l ++ [10]) :=
+  utf8_joinWith_nl h
+
+/-- the same on text -/
+theorem C06_one_newline_per_line_str (ls : List Str) (h : ls ≠ []) :
+    Str.joinWith '\n' ls ++ ['\n'] = ls.flatMap (· ++ ['\n']) :=
+  joinWith_append_nl h
+
+theorem C06_utf8_append (a b : Str) : utf8 (a ++ b) = utf8 a ++ utf8 b := utf8_append a b
+
+theorem C06_decode_utf8 (s : Str) : decodeUtf8 (utf8 s) = some s := decodeUtf8_utf8 s
+
+/-- `write_lines` through `step`: a successful call with a non-empty join leaves every line
+    followed by one newline, and `read` returns exactly that -/
+theorem C06_write_lines_content (env : Env) (s s' : State) (p : Str) (ls : List Str) (k : FsPath)
+    (v : Val) (hroot : RootOk s) (habs : absM env p s = (.ok k, s))
+    (hj : Str.joinWith '\n' ls ≠ [])
+    (hw : step env s (.writeLines p ls) = (.ok v, s')) :
+    content s' k = some (ls.flatMap (fun l => utf8 l ++ [10])) ∧
+    step env s' (.read p) = (.ok (.bytes (ls.flatMap (fun l => utf8 l ++ [10]))), s') := by
+  have hw' : step env s (.writeAll p (ls.flatMap (fun l => utf8 l ++ [10]))) = (.ok v, s') := by
+    rw [← hw]
+    show mapVal _ (writeAllM env p _) s = mapVal _ (writeLinesM env p ls) s
+    rw [C06_write_lines_is_write_all, joinLines_of_ne hj]; rfl
+  have h := C06_write_then_read env s s' p _ k v hroot habs hw'
+  exact ⟨h.1, h.2.2.1⟩
+
+/-- `append_line` through `step`: a successful call with a non-empty line on an existing entry adds
+    the line and one newline at the end -/
+theorem C06_append_line_content (env : Env) (s s' : State) (p : Str) (l : Str) (old : Bytes)
+    (k : FsPath) (v : Val) (habs : absM env p s = (.ok k, s)) (hl : l ≠ [])
+    (hent : (alLookup k s.entries).isSome) (hold : content s k = some old)
+    (ha : step env s (.appendLine p l) = (.ok v, s')) :
+    content s' k = some (old ++ utf8 l ++ [10]) := by
+  have ha' : step env s (.appendAll p (utf8 l ++ [10])) = (.ok v, s') := by
+    rw [← ha]
+    show mapVal _ (appendAllM env p _) s = mapVal _ (appendLineM env p l) s
+    rw [C06_append_line_is_append_all, if_neg hl]
+  rw [List.append_assoc]
+  exact C06_append_extends_existing env s s' p _ old k v habs hent hold ha'
+
+/-- FINDING: `append_line("")` adds nothing (not even a newline) and does not create the file -/
+theorem C06_finding_append_line_empty (env : Env) (p : Str) : appendLineM env p [] = M.pure () := rfl
+
+/-- FINDING: `write_lines(&[])` neither truncates nor creates -/
+theorem C06_finding_write_lines_none (env : Env) (p : Str) : writeLinesM env p [] = M.pure () := rfl
+
+/-- FINDING: `write_lines(&[""])` neither truncates nor creates -/
+theorem C06_finding_write_lines_one_empty (env : Env) (p : Str) :
+    writeLinesM env p [[]] = M.pure () := rfl
+
+/-- … so after those calls every file still has its old content -/
+theorem C06_finding_write_lines_keeps_old (env : Env) (s : State) (p : Str) (q : FsPath) :
+    content (step env s (.writeLines p [])).2 q = content s q ∧
+    content (step env s (.writeLines p [[]])).2 q = content s q ∧
+    content (step env s (.appendLine p [])).2 q = content s q :=
+  ⟨rfl, rfl, rfl⟩
+
+/-! ### 5. read_lines ∘ write_lines -/
+
+/-- on text: splitting the joined lines gives the lines back, for a non-empty list of lines that
+    contain no `\n` and do not end in `\r` (empty lines are fine here) -/
+theorem C06_lines_roundtrip (ls : List Str) (hne : ls ≠ [])
+    (hnl : ∀ l ∈ ls, '\n' ∉ l) (hcr : ∀ l ∈ ls, l.getLast? ≠ some '\r') :
+    splitLines (Str.joinWith '\n' ls ++ ['\n']) = ls :=
+  splitLines_join hne hnl hcr
+
+/-- the side conditions are exact: the round trip holds IF AND ONLY IF the list is non-empty, no
+    line contains `\n` and no line ends in `\r` -/
+theorem C06_lines_roundtrip_iff (ls : List Str) :
+    splitLines (Str.joinWith '\n' ls ++ ['\n']) = ls ↔
+      ls ≠ [] ∧ (∀ l ∈ ls, '\n' ∉ l) ∧ (∀ l ∈ ls, l.getLast? ≠ some '\r') :=
+  splitLines_join_iff ls
+
+/-- reading back ANY text that ends in a newline: the `\n`-pieces of what precedes the final
+    newline, each stripped of one trailing `\r` -/
+theorem C06_read_lines_of_terminated (t : Str) :
+    splitLines (t ++ ['\n']) = (Str.splitOn '\n' t).map stripCr :=
+  splitLines_append_nl t
+
+/-- concrete witnesses: each side condition is necessary -/
+theorem C06_lines_roundtrip_needs_nonempty_list :
+    splitLines (Str.joinWith '\n' [] ++ ['\n']) = [[]] := by decide
+theorem C06_lines_roundtrip_needs_no_newline :
+    splitLines (Str.joinWith '\n' [['a', '\n', 'b']] ++ ['\n']) = [['a'], ['b']] := by decide
+theorem C06_lines_roundtrip_needs_no_trailing_cr :
+    splitLines (Str.joinWith '\n' [['a', '\r']] ++ ['\n']) = [['a']] := by decide
+
+/-- through the filesystem: `read_lines` after a successful `write_lines ls` returns `ls`, provided
+    the join is non-empty (otherwise nothing is written, see the findings above) -/
+theorem C06_write_lines_read_lines (env : Env) (s s' : State) (p : Str) (ls : List Str) (k : FsPath)
+    (v : Val) (hroot : RootOk s) (habs : absM env p s = (.ok k, s))
+    (hj : Str.joinWith '\n' ls ≠ [])
+    (hnl : ∀ l ∈ ls, '\n' ∉ l) (hcr : ∀ l ∈ ls, l.getLast? ≠ some '\r')
+    (hw : step env s (.writeLines p ls) = (.ok v, s')) :
+    step env s' (.readLines p) = (.ok (.strs ls), s') := by
+  have hne : ls ≠ [] := by rintro rfl; exact hj rfl
+  have hw' : step env s (.writeAll p (utf8 (Str.joinWith '\n' ls) ++ [nl])) = (.ok v, s') := by
+    rw [← hw]
+    show mapVal _ (writeAllM env p _) s = mapVal _ (writeLinesM env p ls) s
+    rw [C06_write_lines_is_write_all, joinLines_eq, if_neg hj]
+  have h := (C06_write_then_read env s s' p _ k v hroot habs hw').2.2.2.2
+  rw [h, decodeUtf8_utf8_append_nl]
+  simp only [splitLines_join hne hnl hcr]
+
+/-- non-vacuity of the hypotheses of `C06_lines_roundtrip` -/
+example : splitLines (Str.joinWith '\n' [['a'], [], ['b', '\r', 'c']] ++ ['\n']) =
+    [['a'], [], ['b', '\r', 'c']] :=
+  C06_lines_roundtrip _ (by decide) (by decide) (by decide)
+
+/-! ### 6. handles: open, any writes and flushes, drop -/
+
+/-- `write(path)` handle: after any sequence of `write(chunk)` / `flush()` calls and the drop, the
+    file holds the concatenation of the chunks (`File.chunksOf`, as in C07), whatever it held
+    before.  The handle id need not be fresh: the new handle shadows older ones with the same id. -/
+theorem C06_handle_session_write (env : Env) (s s1 : State) (p : Str) (id : Nat) (k : FsPath) (v : Val)
+    (ops : List WOp) (hroot : RootOk s) (habs : absM env p s = (.ok k, s))
+    (hopen : step env s (.hWrite id p) = (.ok v, s1)) :
+    content (run env s1 (ops.map (wopToOp id) ++ [.hDrop id])) k = some (chunksOf ops) := by
+  obtain ⟨u, hu⟩ := step_hWrite_ok habs hopen
+  exact session_drop env id k ops s1 [] (openWriteAt_ok hroot hu)
+
+/-- `append(path)` handle: old content (if the entry existed) followed by the chunks -/
+theorem C06_handle_session_append (env : Env) (s s1 : State) (p : Str) (id : Nat) (k : FsPath) (v : Val)
+    (ops : List WOp) (hroot : RootOk s) (habs : absM env p s = (.ok k, s))
+    (hopen : step env s (.hAppend id p) = (.ok v, s1)) :
+    ((alLookup k s.entries).isSome → ∃ old, content s k = some old ∧
+      content (run env s1 (ops.map (wopToOp id) ++ [.hDrop id])) k = some (old ++ chunksOf ops)) ∧
+    (alLookup k s.entries = none →
+      content (run env s1 (ops.map (wopToOp id) ++ [.hDrop id])) k = some (chunksOf ops)) := by
+  obtain ⟨u, hu⟩ := step_hAppend_ok habs hopen
+  obtain ⟨b, hs, h1, h2⟩ := openAppendAt_ok hroot hu
+  have := session_drop env id k ops s1 b hs
+  refine ⟨fun he => ⟨b, h1 he, this⟩, fun hn => ?_⟩
+  rw [h2 hn] at this; exact this
+
+/-- every flush makes everything written so far visible -/
+theorem C06_handle_flush_visible (env : Env) (s s1 : State) (p : Str) (id : Nat) (k : FsPath) (v : Val)
+    (ops : List WOp) (hroot : RootOk s) (habs : absM env p s = (.ok k, s))
+    (hopen : step env s (.hWrite id p) = (.ok v, s1)) :
+    content (run env s1 (ops.map (wopToOp id) ++ [.hFlush id])) k = some (chunksOf ops) := by
+  obtain ⟨u, hu⟩ := step_hWrite_ok habs hopen
+  exact session_flush env id k ops s1 [] (openWriteAt_ok hroot hu)
+
+/-- the filesystem-level session agrees with C07's handle-level `writeSession` -/
+theorem C06_handle_session_is_writeSession (env : Env) (s s1 : State) (p : Str) (id : Nat) (k : FsPath)
+    (v : Val) (ops : List WOp) (stored : Bytes) (hroot : RootOk s) (habs : absM env p s = (.ok k, s))
+    (hopen : step env s (.hWrite id p) = (.ok v, s1)) :
+    content (run env s1 (ops.map (wopToOp id) ++ [.hDrop id])) k =
+      some (writeSession false stored ops) := by
+  rw [C06_handle_session_write env s s1 p id k v ops hroot habs hopen, writeSession_eq]; rfl
+
+/-! ### any sequence of calls against the byte-vector model -/
+
+/-- `RootOk` and path resolution survive every content operation, so the per-call theorems chain -/
+theorem C06_rootOk_preserved (env : Env) (s : State) (op : Op) (hop : isContentOp op = true)
+    (h : RootOk s) : RootOk (step env s op).2 :=
+  step_rootOk env s op hop h
+
+/-- for ANY sequence of `write_all`, `append_all`, `write_lines`, `append_lines`, `append_line` calls
+    on a path (all returning `Ok`), starting from a readable file holding `b0`: the stored bytes are
+    exactly what the byte-vector model `COp.apply` computes (write replaces, append extends, line
+    helpers add `joinLines`), and `read` returns them -/
+theorem C06_sequence (env : Env) (s : State) (p : Str) (k : FsPath) (b0 : Bytes) (cs : List COp)
+    (hroot : RootOk s) (habs : absM env p s = (.ok k, s)) (hfile : Readable s k b0)
+    (hok : runOk env s (cs.map (COp.toOp p))) :
+    content (run env s (cs.map (COp.toOp p))) k = some (cs.foldl COp.apply b0) ∧
+    step env (run env s (cs.map (COp.toOp p))) (.read p) =
+      (.ok (.bytes (cs.foldl COp.apply b0)), run env s (cs.map (COp.toOp p))) := by
+  have h := tracks_run cs ⟨hroot, habs, hfile⟩ hok
+  exact ⟨h.readable.1, step_read_of_readable h.abs h.readable⟩
+
+/-- the same from an arbitrary state, the first call being a successful `write_all` -/
+theorem C06_sequence_after_write (env : Env) (s s1 : State) (p : Str) (k : FsPath) (d0 : Bytes) (v : Val)
+    (cs : List COp) (hroot : RootOk s) (habs : absM env p s = (.ok k, s))
+    (hw : step env s (.writeAll p d0) = (.ok v, s1))
+    (hok : runOk env s1 (cs.map (COp.toOp p))) :
+    content (run env s1 (cs.map (COp.toOp p))) k = some (cs.foldl COp.apply d0) ∧
+    step env (run env s1 (cs.map (COp.toOp p))) (.read p) =
+      (.ok (.bytes (cs.foldl COp.apply d0)), run env s1 (cs.map (COp.toOp p))) := by
+  obtain ⟨u, hu⟩ := step_writeAll_ok habs hw
+  have hroot1 : RootOk s1 := by
+    have := step_rootOk env s (.writeAll p d0) rfl hroot
+    rw [hw] at this; exact this
+  exact C06_sequence env s1 p k d0 cs hroot1 (absM_transport habs (writeAt_cwd hu))
+    (writeAt_ok hroot hu) hok
+
+/-! ### the root clause is needed (FINDING: `_add` returns early on the root path) -/
+
+/-- a state whose data map has bytes for the root key but no root entry -/
+def rootDataNoEntry : State :=
+  { entries := [], files := [([], [1])], cwd := [], root := [], handles := [] }
+
+/-- there `write_all("/")` (key level: after resolution) returns `Ok` and changes nothing: the old
+    byte survives, so `RootOk` cannot be dropped from `C06_write_then_read` -/
+theorem C06_rootOk_needed :
+    ¬ RootOk rootDataNoEntry ∧
+    writeAt [] [2] rootDataNoEntry = (.ok (), rootDataNoEntry) ∧
+    content rootDataNoEntry [] = some [1] := by decide
+
+/-- and with a root directory entry that carries data, the write lands but `read` refuses -/
+def rootDirWithData : State :=
+  { entries := [([], mkDirEntry [] none)], files := [([], [1])], cwd := [], root := [], handles := [] }
+
+theorem C06_rootOk_needed_for_read :
+    ¬ RootOk rootDirWithData ∧
+    (writeAt [] [2] rootDirWithData).1 = .ok () ∧
+    content (writeAt [] [2] rootDirWithData).2 [] = some [2] ∧
+    (cloneAt [] (writeAt [] [2] rootDirWithData).2).1 = .err .isNotFile := by decide
+
+/-- neither state satisfies the C03 invariant -/
+theorem C06_rootOk_witnesses_violate_inv :
+    ¬ Spec.Inv rootDataNoEntry ∧ ¬ Spec.Inv rootDirWithData := by decide
+
+/-! ### 7. copies and moves do not alias their source -/
+
+/-- `copy src dst` of a regular file onto a path that is not a directory — fresh, or an existing
+    file that gets overwritten — (single-file case, proved through the whole `copyM`:
+    `entriesOf`/`cloneEntries`/`runIter` on the one-entry snapshot, then the file branch of the loop
+    body): the destination holds a copy of the source bytes, the source and every other key keep
+    theirs.  In this model contents are values, so sharing is unrepresentable; the content of the
+    statement is "copied, source intact, nothing else touched".  `hdstOf` says the destination
+    computed for the traversal root is the destination itself (true for every well-formed key:
+    `C06_dstOf_self`). -/
+theorem C06_copy_does_not_alias (env : Env) (s s' : State) (src dst : Str) (sk dk : FsPath)
+    (e pd : Entry) (v : Val)
+    (hsrc : absM env src s = (.ok sk, s)) (hdst : absM env dst s = (.ok dk, s)) (hne : sk ≠ dk)
+    (he : alLookup sk s.entries = some e) (hpath : e.path = sk)
+    (hf : e.file = true) (hl : e.link = false) (hd : e.dir = false) (hfs : e.files = none)
+    (hnotdir : isDirP s dk = false) (hdk0 : dk ≠ [])
+    (hpar : alLookup dk.dropLast s.entries = some pd)
+    (hdstOf : dstOf dk sk sk = dk)
+    (hc : step env s (.copy src dst) = (.ok v, s')) :
+    (∃ b, content s sk = some b ∧ content s' dk = some b) ∧
+    content s' sk = content s sk ∧
+    (∀ q, q ≠ dk → content s' q = content s q) := by
+  obtain ⟨u, hu, _⟩ := mapVal_ok hc
+  rw [copyM_file hsrc hdst hne he hpath hf hl hd hfs hnotdir hdk0 hpar hdstOf] at hu
+  have h := copyFileAt_ok hne hf hl hd hu
+  exact ⟨h.1, h.2.1 sk hne, h.2.1⟩
+
+/-- the same with the entry-shape facts discharged by the C03 invariant -/
+theorem C06_copy_does_not_alias_inv (env : Env) (s s' : State) (src dst : Str) (sk dk : FsPath)
+    (e pd : Entry) (v : Val) (hinv : Spec.Inv s)
+    (hsrc : absM env src s = (.ok sk, s)) (hdst : absM env dst s = (.ok dk, s)) (hne : sk ≠ dk)
+    (he : alLookup sk s.entries = some e)
+    (hf : e.file = true) (hl : e.link = false) (hd : e.dir = false)
+    (hnotdir : isDirP s dk = false) (hdk0 : dk ≠ [])
+    (hpar : alLookup dk.dropLast s.entries = some pd)
+    (hwf : ∀ n ∈ dk, Wf n)
+    (hc : step env s (.copy src dst) = (.ok v, s')) :
+    content s' dk = content s sk ∧ content s' sk = content s sk ∧
+    (∀ q, q ≠ dk → content s' q = content s q) := by
+  have hfacts := invFacts_of_inv hinv
+  have hfs : e.files = none := by
+    have := hfacts.childSet sk e he
+    rw [hd] at this
+    cases h : e.files <;> simp [h] at this ⊢
+  obtain ⟨⟨b, h1, h2⟩, h3, h4⟩ := C06_copy_does_not_alias env s s' src dst sk dk e pd v hsrc hdst hne he
+    (hfacts.pathField sk e he) hf hl hd hfs hnotdir hdk0 hpar (dstOf_self sk hwf) hc
+  exact ⟨by rw [h1, h2], h3, h4⟩
+
+theorem C06_dstOf_self (sk dk : FsPath) (hwf : ∀ n ∈ dk, Wf n) : dstOf dk sk sk = dk :=
+  dstOf_self sk hwf
+
+/-- after the copy, writing to either file does not change the other (corollary of independence) -/
+theorem C06_copy_then_write_independent (env : Env) (s' : State) (sk dk : FsPath) (hne : sk ≠ dk)
+    (p2 : Str) (d2 : Bytes) :
+    (keyOf env s' p2 = some dk → content (step env s' (.writeAll p2 d2)).2 sk = content s' sk) ∧
+    (keyOf env s' p2 = some sk → content (step env s' (.writeAll p2 d2)).2 dk = content s' dk) := by
+  constructor
+  · intro hk
+    exact step_frame env s' _ rfl sk (by simp only [opKey, hk]; intro h; cases h; exact hne rfl)
+  · intro hk
+    exact step_frame env s' _ rfl dk (by simp only [opKey, hk]; intro h; cases h; exact hne rfl)
+
+/-- `move_p src dst` of an entry without children onto a path that is not a directory: the bytes are
+    now under the destination key, every third key is untouched, and (data keys being unique, as
+    `Spec.Inv` guarantees) the source key has no data left -/
+theorem C06_move_does_not_alias (env : Env) (s s' : State) (src dst : Str) (sk dk : FsPath)
+    (e pd : Entry) (b : Bytes) (v : Val)
+    (hsrc : absM env src s = (.ok sk, s)) (hdst : absM env dst s = (.ok dk, s)) (hne : sk ≠ dk)
+    (he : alLookup sk s.entries = some e) (hfs : e.files = none)
+    (hnotdir : isDirP s dk = false) (hdk0 : dk ≠ [])
+    (hpar : alLookup dk.dropLast s.entries = some pd)
+    (hdstOf : dstOf dk sk sk = dk) (hb : content s sk = some b)
+    (hm : step env s (.moveP src dst) = (.ok v, s')) :
+    content s' dk = some b ∧
+    (∀ q, q ≠ dk → q ≠ sk → content s' q = content s q) ∧
+    ((s.files.map (·.1)).Nodup → content s' sk = none) := by
+  obtain ⟨u, hu, _⟩ := mapVal_ok hm
+  exact moveM_file_content hsrc hdst hne he hfs hnotdir hdk0 hpar hdstOf hb hu
+
+/-! ### non-vacuity (tests, labelled as such): the hypotheses hold on concrete states -/
+
+/-- an environment without variables -/
+def env0 : Env := fun _ => none
+
+example : RootOk Memfs.init := by decide
+
+/-- `write_all("/f", "hi")` on the initial filesystem, then `read("/f")` -/
+example : ∃ s', step env0 Memfs.init (.writeAll ['/', 'f'] [104, 105]) = (.ok .unit, s') ∧
+    content s' [['f']] = some [104, 105] ∧
+    step env0 s' (.read ['/', 'f']) = (.ok (.bytes [104, 105]), s') :=
+  have h := C06_write_then_read env0 Memfs.init _ ['/', 'f'] [104, 105] [['f']] .unit
+    (by decide) (by decide) (Prod.ext (by decide) rfl)
+  ⟨_, Prod.ext (by decide) rfl, h.1, h.2.2.1⟩
+
+/-- the initial filesystem after `write_all("/a", [7])` -/
+def sA : State := (step env0 Memfs.init (.writeAll ['/', 'a'] [7])).2
+
+/-- `copy("/a", "/b")` -/
+example : ∃ s', step env0 sA (.copy ['/', 'a'] ['/', 'b']) = (.ok .unit, s') ∧
+    content s' [['b']] = some [7] ∧ content s' [['a']] = some [7] :=
+  have h := C06_copy_does_not_alias env0 sA _ ['/', 'a'] ['/', 'b'] [['a']] [['b']]
+    (mkFileEntry [['a']]) ({ mkDirEntry [] none with files := some [['a']] }) .unit
+    (by decide) (by decide) (by decide) (by decide) rfl rfl rfl rfl rfl
+    (by decide) (by decide) (by decide) (by decide) (Prod.ext (by decide) rfl)
+  ⟨_, Prod.ext (by decide) rfl, by
+    obtain ⟨⟨b, h1, h2⟩, h3, _⟩ := h
+    have : content sA [['a']] = some [7] := by decide
+    rw [this] at h1 h3; cases h1; exact ⟨h2, h3⟩⟩
+
+/-- `move_p("/a", "/b")` -/
+example : ∃ s', step env0 sA (.moveP ['/', 'a'] ['/', 'b']) = (.ok .unit, s') ∧
+    content s' [['b']] = some [7] ∧ content s' [['a']] = none :=
+  have h := C06_move_does_not_alias env0 sA _ ['/', 'a'] ['/', 'b'] [['a']] [['b']]
+    (mkFileEntry [['a']]) ({ mkDirEntry [] none with files := some [['a']] }) [7] .unit
+    (by decide) (by decide) (by decide) (by decide) rfl (by decide) (by decide) (by decide) (by decide)
+    (by decide) (Prod.ext (by decide) rfl)
+  ⟨_, Prod.ext (by decide) rfl, h.1, h.2.2 (by decide)⟩
+
+/-- open a write handle on "/a" (which holds [7]), write [1], flush, write [2, 3], drop -/
+example : ∃ s1, step env0 sA (.hWrite 5 ['/', 'a']) = (.ok .unit, s1) ∧
+    content (run env0 s1 ([.write [1], .flush, .write [2, 3]].map (wopToOp 5) ++ [.hDrop 5])) [['a']] =
+      some [1, 2, 3] :=
+  ⟨_, Prod.ext (by decide) rfl,
+    C06_handle_session_write env0 sA _ ['/', 'a'] 5 [['a']] .unit [.write [1], .flush, .write [2, 3]]
+      (by decide) (by decide) (Prod.ext (by decide) rfl)⟩
+
+/-- write_all, then append_line, append_all, write_lines, append_lines on "/f" -/
+example :
+    content (run env0 (step env0 Memfs.init (.writeAll ['/', 'f'] [1])).2
+      (([.appendLine ['x'], .appendAll [2], .writeLines [['a'], ['b']], .appendLines [['c']]] :
+        List COp).map (COp.toOp ['/', 'f']))) [['f']] = some [97, 10, 98, 10, 99, 10] := by
+  have h := C06_sequence_after_write env0 Memfs.init
+    (step env0 Memfs.init (.writeAll ['/', 'f'] [1])).2 ['/', 'f'] [['f']] [1] .unit
+    [.appendLine ['x'], .appendAll [2], .writeLines [['a'], ['b']], .appendLines [['c']]]
+    (by decide) (by decide) (Prod.ext (by decide) rfl) (by decide)
+  rw [h.1]
+  simp only [List.foldl, COp.apply, joinLines_eq, utf8_eq_flatMap]
+  decide
+
+-- OPEN (not proved):
+--   * `copy` / `move_p` of a directory tree (recursive case) and `copy` into an existing directory
+--     (`copyInto`): only the single-file case onto a non-directory path is proved above.
+--   * that every key produced by `absM` is well-formed (`∀ n ∈ k, Wf n`), which would discharge the
+--     decidable hypothesis `dstOf dk sk sk = dk` of `C06_copy_does_not_alias` /
+--     `C06_move_does_not_alias` once and for all (`C06_dstOf_self` reduces it to that).
+
 end Rivia.Props
